@@ -488,3 +488,49 @@ def raw_sasl_cut_cases(ctx):
                 notes=[f"raw SASL cuts: {len(cases)} cuts run, {n_model} compared with the model (cuts inside the 4-byte prefix are judged by the predicate only), "
                        f"{not_cut} enumerated positions were at or past the end of the frame and dropped"],
                 extra=dict(raw_sasl_cut_evaluations=len(cases), raw_sasl_cut_model_compared=n_model))
+
+
+def raw_sasl_alloc_cases(ctx):
+    """C20's clause on the one response the Transport reads outside protocol.ReadResponse: the raw
+    (SaslHandshake v0) SASL authentication response, a 4-byte length from the wire followed by
+    that many bytes.  Announced lengths {exact, one more, 10^4 .. 2^31-1, negative} x payloads
+    actually sent x {close, silence}; the child process measures runtime.MemStats.TotalAlloc
+    around the round trip.  Predicate on the implementation's own output (Transport path): no
+    panic, no out-of-memory death, allocation <= 1 MiB + 4 x bytes received."""
+    gobin = go_build_c18()
+    rc, out, err, dt = L.sh([gobin, "-seed", str(ctx.seed), "-subset", "rawread"], timeout=900)
+    if rc != 0:
+        raise L.Fail("correspondence", "harness cmd/c18 -subset rawread failed", (out[-1500:] + err[-2500:]))
+    failures, hist, n, nontrivial = [], {}, 0, set()
+    worst = dict(alloc=0)
+    for line in out.splitlines():
+        parts = [p.strip() for p in line.split(" | ")]
+        if len(parts) < 4:
+            continue
+        cid, op, args = parts[0].split(" ", 2)
+        a = parse_args(args) if op == "rawread" else None
+        if not a or a.get("path") != "t":
+            continue
+        n += 1
+        nontrivial.add(args)
+        alloc, recv = parse_meas(parts[3])
+        k = "announced=%s" % ("negative" if a["prefix"] < 0 else "<=64KiB" if a["prefix"] <= 65536 else "<=16MiB" if a["prefix"] <= (1 << 24) else ">16MiB")
+        hist["sasl-raw-alloc:" + k] = hist.get("sasl-raw-alloc:" + k, 0) + 1
+        if alloc >= worst["alloc"]:
+            worst = dict(alloc=alloc, recv=recv, case=parts[0])
+        go = parts[1]
+        what = None
+        if go.startswith("OOM"):
+            what = "the client ran out of memory (ulimit -v) reading a raw SASL response"
+        elif go.startswith("PANIC"):
+            what = "the client panicked reading a raw SASL response"
+        elif alloc > ALLOC_SLACK + 4 * recv:
+            what = (f"Transport raw SASL response read: {alloc} bytes allocated (runtime.MemStats.TotalAlloc) for a response of which "
+                    f"{recv} bytes arrived (announced length {a['prefix']}); bound 1 MiB + 4 x received")
+        if what and len(failures) < 3:
+            failures.append(dict(layer="property", what=what, key=None,
+                                 input=dict(case=parts[0], go=go, meas=parts[3], seed=ctx.seed,
+                                            replay="build/bin/c18 -seed %d -case '%s %s'" % (ctx.seed, op, args)),
+                                 detail=json.dumps(dict(case=parts[0], go=go, meas=parts[3]))))
+    return dict(evaluations=n, distinct_nontrivial=len(nontrivial), hist=hist, failures=failures, worst=worst,
+                samples=[worst.get("case", "") + " | alloc=%d recv=%d" % (worst.get("alloc", 0), worst.get("recv", 0))])
